@@ -41,6 +41,9 @@ Q ==
                     n \in {x \in nodes : \E i \in 1..Len(got(x)) : ~got(x)[i].auth \/ <<got(x)[i].from, got(x)[i].data>> \notin pubs}}
                 \cup {<<"C27", "a message was handed to a node that has no subscription", n>> : n \in {x \in nodes \ subs : frozen /\ Len(got(x)) > 0}}
                 \cup {<<"C27", "a forged / foreign-channel message was forwarded", sent[i].from>> : i \in {j \in realPubSent : <<sent[j].origin, sent[j].data>> \notin pubs}}
+                \cup {<<"C27", "a node that is not subscribed to the channel accepted and forwarded a message for it", sent[i].from>> :
+                         i \in {j \in {k \in 1..Len(Ev.sent) : Ev.sent[k].t = "pub" /\ ~Ev.sent[k].inj} :
+                                   frozen /\ Ev.sent[j].from \notin subs /\ Ev.sent[j].from # Ev.sent[j].origin}}
          b28 == {<<"C28", "a message was handed to a subscription more than once", n>> :
                     n \in {x \in nodes : \E p \in pubs : Count(got(x), p[1], p[2]) > 1}}
                 \cup {<<"C28", "a reachable subscriber did not receive a published message", n>> :
